@@ -102,7 +102,9 @@ prop('C15', level='other', design_ref='DESIGN.md section 6 (C15)',
               {'obligation': 'index.c15.falling-daemon-height', 'driver': 'index_scenario.py',
                'request': {'mode': 'c15-falling', 'rounds': 3}, 'expect_kf': 'KF-C15-1',
                'what': 'probe of the listed known finding: falling daemon-height trajectories', 'bound': '3 scenarios'}],
-     not_decided=['the undo clause inside advance_block is not under deductive contract yet'],
+     not_decided=['falling daemon-height trajectories (listed finding KF-C15-1); the composition over all sync phases is the bounded stand-in - '
+                  'the undo clause of advance_block, flush_undo_infos, the undo rows in flush_utxo_db, read_undo_info, clear_excess_undo_info and '
+                  'the undo consumption of backup_block are proved'],
      assumptions=[])
 
 prop('C13', level='other', design_ref='DESIGN.md section 6 (C13)',
@@ -136,7 +138,7 @@ prop('C02', level='other', design_ref='DESIGN.md section 6 (C02)',
                'what': 'every script hash history (all limits) and tx-number -> (hash, height) equal the clean index',
                'bound': '10 (thorough: 60) generated chains of 3-13 blocks x random history-only/full flush schedule x chunk '
                         'sizes {90, 200, 1000, 25M} x restart'}],
-     not_decided=['the history clause of advance_block (which script hashes a transaction touches) is not under deductive contract; '
+     not_decided=['which script hashes advance_block lists for a transaction is not under deductive contract (its tx numbering is); '
                   'add_unflushed, flush, get_txnums, fs_tx_hash, fs_tx_hashes_at_blockheight are'],
      assumptions=[])
 
@@ -185,8 +187,9 @@ prop('C01', level='other', design_ref='DESIGN.md section 6 (C01)',
                         'activation height, zero values, empty/duplicate scripts) x random flush schedule x chunk sizes; every sixth '
                         'scenario: two flushed outputs sharing the 4-byte compressed hash and the index (birthday search), same '
                         'or different script, spent in either order, with restarts'}],
-     not_decided=['advance_block and spend_utxo (which rows are written / deleted) are not under deductive contract; the query side '
-                  '(read_utxos, lookup_utxo, lookup_hashX, fs_tx_hash) and the one-commit discipline of flush_utxo_db are'], assumptions=[])
+     not_decided=['the cache key / value layout written by advance_block and the h / u row layout written by flush_utxo_db are not under '
+                  'deductive contract; the bookkeeping of advance_block (rule selection, counts), spend_utxo, the query side (read_utxos, '
+                  'lookup_utxo, lookup_hashX, fs_tx_hash) and the one-commit discipline of flush_utxo_db are'], assumptions=[])
 prop('C03', level='other', design_ref='DESIGN.md section 6 (C03)',
      technique='deductive verification of the reorg arithmetic/pointer functions + bounded native reorg scenarios with an '
                'independent oracle on a real LevelDB',
@@ -195,8 +198,9 @@ prop('C03', level='other', design_ref='DESIGN.md section 6 (C03)',
      bounded=[{'obligation': 'index.c03.bounded', 'driver': 'index_scenario.py', 'request': {'mode': 'c03', 'rounds': 10},
                'what': 'after 1-3 reorgs of depth 1-3 (forced/natural, back to back) every observable equals a fresh index; every script hash changed by an undone block is in the touched set',
                'bound': '10 (thorough: 60) generated chains of 6-13 blocks x random flush schedules'}],
-     not_decided=['backup_block and History.backup (content of the rollback) are not under deductive contract; the fork-point search '
-                  '(_calc_reorg_range, _reorg_hashes), reorg_chain (labelling and order of the undone blocks), the commit order of '
+     not_decided=['that backup_block visits inputs in exactly the reverse of the spend order and which cache entries result, and which rows '
+                  'History.backup visits, are not under deductive contract; the fork-point search (_calc_reorg_range, _reorg_hashes), '
+                  'reorg_chain, the bookkeeping of backup_block, History.backup (one atomic batch, per-row facts), the commit order of '
                   'flush_backup, backup_fs and MerkleCache.truncate are'], assumptions=[])
 prop('C04', level='other', design_ref='DESIGN.md section 6 (C04)',
      technique='deductive verification of the commit discipline components (History.flush fresh ids, clear_excess scrubbing; VCs '
@@ -208,8 +212,9 @@ prop('C04', level='other', design_ref='DESIGN.md section 6 (C04)',
                'what': 'die at each durable write of a flush (3 file writes incl. torn prefixes, history batch, UTXO batch, second '
                        'state put), reopen, compare with the clean index at the reported height, resume, compare at the end',
                'bound': '16 (thorough: 96) generated chains x 8 crash points x history-only/full flush'}],
-     not_decided=['flush_dbs / flush_fs (order of file writes and commits) are not under deductive contract; History.flush, '
-                  'flush_utxo_db (one atomic commit each, state record inside) and clear_excess are'], assumptions=[])
+     not_decided=['the restart path (read_utxo_state, _read_tx_counts, History.open_db) is not under deductive contract: recovery after each '
+                  'crash point is the bounded stand-in; the write order of flush_dbs, flush_fs, History.flush, flush_utxo_db (one atomic '
+                  'commit each, state record inside) and clear_excess are proved'], assumptions=[])
 prop('C05', level='other', design_ref='DESIGN.md section 6 (C05)',
      technique='bounded native crash injection inside flush_backup on a real LevelDB + the deductive contracts of the recovery path '
                '(clear_excess, C14/C15 functions); the failing cut is a listed known finding',
@@ -267,7 +272,8 @@ prop('C11', level='other', design_ref='DESIGN.md section 6 (C11)',
               {'obligation': 'merkle.MerkleCache.race', 'driver': 'merkle_race.py', 'request': {'rounds': 10}, 'expect_kf': 'KF-C11-1',
                'what': 'header-proof request in flight while the chain is reorganised and the cache truncated: after settling every '
                        'proof must fold to the root of the current chain', 'bound': '10 generated race scenarios (probe of the known finding)'}],
-     not_decided=['MerkleCache functions under interference not under deductive contract', 'tsc_merkle_proof_for_tx_hash'],
+     not_decided=['MerkleCache._extend_to / _level_for / branch_and_root under interference are not under deductive contract (listed finding '
+                  'KF-C11-1 lives there)'],
      assumptions=[])
 
 prop('C07', level='other', design_ref='DESIGN.md section 6 (C07)',
